@@ -18,6 +18,7 @@ import (
 	"strconv"
 	"strings"
 	"syscall"
+	"time"
 
 	sgbucket "github.com/couchbase/sg-bucket"
 	"github.com/couchbaselabs/rosmar"
@@ -70,6 +71,7 @@ func cmdCrashChild(args []string) error {
 	out := fs.String("out", "", "raw trace file")
 	at := fs.Int("at", 0, "1-based index of the operation during which to die (0 = never)")
 	site := fs.String("site", "", "hook site at which to die")
+	late := fs.Int("late", 0, "first write a document that expires in this many seconds (the bucket is re-opened after that)")
 	if err := fs.Parse(args); err != nil {
 		return err
 	}
@@ -104,6 +106,11 @@ func cmdCrashChild(args []string) error {
 	}
 	for _, c := range collNames {
 		if err := colls[c].PutDDoc(context.Background(), "vd", viewDDoc()); err != nil {
+			return err
+		}
+	}
+	if *late > 0 {
+		if err := colls["c2"].Set("late", uint32(time.Now().Unix())+uint32(*late), nil, []byte(`{"late":1}`)); err != nil {
 			return err
 		}
 	}
@@ -226,6 +233,7 @@ func cmdCrashCheck(args []string) error {
 	at := fs.Int("at", 0, "operation index of the crash")
 	site := fs.String("site", "", "crash site")
 	out := fs.String("out", "", "output trace (appended)")
+	late := fs.Bool("late", false, "the child wrote a document whose expiry has passed by now: it must expire soon after the re-open")
 	if err := fs.Parse(args); err != nil {
 		return err
 	}
@@ -312,6 +320,19 @@ func cmdCrashCheck(args []string) error {
 		set, next := rosmar.VerifExpiryState(b)
 		line["timerarmed"] = set && next != 0
 		line["anyexp"] = anyExp
+		line["late"] = *late
+		line["lategone"] = false
+		if *late {
+			// a pending expiration whose deadline passed while nobody had the bucket open is still pending
+			deadline := time.Now().Add(4 * time.Second)
+			for time.Now().Before(deadline) {
+				if ok, err := colls["c2"].Exists("late"); err == nil && !ok {
+					line["lategone"] = true
+					break
+				}
+				time.Sleep(50 * time.Millisecond)
+			}
+		}
 		b.Close(context.Background())
 		// high-water marks, read directly from the database file
 		marks := map[string]*CasRef{"bucket": tr.C(0), "c0": tr.C(0), "c1": tr.C(0), "c2": tr.C(0)}
